@@ -83,7 +83,7 @@ def required_class(block: str, key: str, idx: int) -> str:
 
 IMPORTS = ['Coq.NArith.NArith', 'Coq.ZArith.ZArith', 'Coq.Lists.List', 'Coq.Strings.String', 'SV.KV.KvBase', 'SV.Fmt.VmfText',
            'SV.Fmt.VmfBlocks', 'SV.Gen.VmfTemplates_gen', 'SV.Gen.VmfKeys_gen', 'SV.Gen.VmfDispSizes_gen', 'SV.Gen.VmfOrder_gen',
-           'SV.Gen.VmfProg_gen', 'SV.Fmt.VmfFields', 'SV.Gen.VmfFieldsCfg_gen', 'SV.Fmt.VmfNum', 'SV.Gen.VmfNumFmt_gen', 'SV.Fmt.VmfGuard', 'SV.Fmt.VmfLite', 'SV.Gen.VmfLite_gen', 'SV.Fmt.VmfFlags', 'SV.Gen.VmfFlags_gen', 'SV.Fmt.VmfTok', 'SV.Fmt.VmfPlane', 'SV.Fmt.VmfIds', 'SV.Gen.VmfIds_gen', 'SV.KV.KvSym', 'SV.Gen.KVSer_gen', 'SV.Props.C06']
+           'SV.Gen.VmfProg_gen', 'SV.Fmt.VmfFields', 'SV.Gen.VmfFieldsCfg_gen', 'SV.Fmt.VmfNum', 'SV.Gen.VmfNumFmt_gen', 'SV.Fmt.VmfGuard', 'SV.Fmt.VmfLite', 'SV.Gen.VmfLite_gen', 'SV.Fmt.VmfFlags', 'SV.Gen.VmfFlags_gen', 'SV.Fmt.VmfTok', 'SV.Fmt.VmfPlane', 'SV.Fmt.VmfIds', 'SV.Gen.VmfIds_gen', 'SV.Fmt.VmfTree', 'SV.KV.KvSym', 'SV.Gen.KVSer_gen', 'SV.Props.C06']
 PRE = '''Import ListNotations. Open Scope string_scope.
 Fixpoint nl_eqb (a b : list N) : bool := match a, b with [], [] => true | x :: a', y :: b' => N.eqb x y && nl_eqb a' b' | _, _ => false end.
 Fixpoint bad_idx {A} (f : A -> bool) (n : N) (l : list A) : list N := match l with [] => [] | x :: r => (if f x then [] else [n]) ++ bad_idx f (n + 1)%N r end.
@@ -1071,6 +1071,15 @@ def run(ck: Ck) -> None:
             obs[f'fields_paired:{cname}'] = f'lite_paired lite_{cname}'
             obs[f'attrs_all_written:{cname}'] = f'lite_attrs_written lite_{cname}'
             ck.hist('object_level_written_keys', cname, len(lite[cname]['written']))
+        # containment tree (round 4): the edges the tree theorem may use -- attribute exported by the parent's writer, filled by
+        # the parent's reader with objects of a class of the table, both classes paired -- and the chain VMF > Entity > Solid > Side
+        edges = tr.get('VmfLite_gen', {}).get('child_classes', [])
+        for pc, attr, cc in edges:
+            if cc in L.CLASSES:
+                obs[f'containment_edge:{pc}.{attr}'] = f'edge_ok lite_classes (("{pc}", "{attr}"), "{cc}")'
+            ck.hist('containment_edges', f'{pc}.{attr}->{cc}' + ('' if cc in L.CLASSES else ' (class not in the object-level table)'))
+        obs['containment_chain:VMF>Entity>Solid>Side'] = 'chain_ok lite_classes lite_kid_classes ("VMF" :: "Entity" :: "Solid" :: "Side" :: nil)'
+        obs['containment_chain:VMF>VisGroup>VisGroup'] = 'chain_ok lite_classes lite_kid_classes ("VMF" :: "VisGroup" :: "VisGroup" :: nil)'
         obs['object_classes_complete'] = f'({len(L.CLASSES)} <=? List.length lite_classes)%nat'
         obs['disp_flags_tables_inverse'] = 'flags_tables_ok gen_flags_written gen_flags_t2c gen_flags_sub gen_flags_count'
         obs['disp_flags_all_values'] = '(16 <=? gen_flags_count)%nat'
